@@ -2673,7 +2673,8 @@ def reshape(array: Array, newshape: int | Sequence[int],
     if not all(isinstance(axis_len, INT_CLASSES) for axis_len in array.shape):
         raise ValueError("reshape of arrays with symbolic lengths not allowed")
 
-    if order.upper() not in ["F", "C"]:
+    order = order.upper()
+    if order not in ["F", "C"]:
         raise ValueError("order must be one of F or C")
 
     newshape_explicit: list[ShapeComponent] = []
